@@ -657,8 +657,8 @@ def gen_textgrid_falsy(rng):
         else:
             case[key] = ordinary()
     pick("start_time", "0", lambda: frac_str(max(Fraction(0), min(starts) - Fraction(rng.randrange(0, 64), 64))))
-    # end_time=0.0 is only admissible when nothing ends later
-    pick("end_time", "0" if max(ends) == 0 else None, lambda: frac_str(max(ends) + Fraction(rng.randrange(0, 64), 64)))
+    # end_time=0.0 is only admissible when nothing ends later (sometimes given all the same: ValueError)
+    pick("end_time", "0" if max(ends) == 0 or rng.random() < 0.15 else None, lambda: frac_str(max(ends) + Fraction(rng.randrange(0, 64), 64)))
     pick("tier_name", "", lambda: rng.choice(["words", "my tier", "0", "None"]))
     pick("point_tier", False, lambda: all(a == b for a, b in zip(starts, ends)) or None)
     pick("precision", 0, lambda: rng.choice([1, 2, 4, 5, 6]))
@@ -688,7 +688,11 @@ class C11(PropertyCheck):
             "file read in text mode and raw. Hand-written ctm text (comments, confidence column, spacing, number "
             "spellings, malformed lines, LF / CRLF). TextGrid transcripts in and out of time order, labels with line "
             "breaks; TextGrid files with 1-4 tiers (duplicate names) in the long and short layout x tier_id by "
-            "name / index / negative index / missing x fill. non-trivial: >= 1 alternate, >= 2 utterances, "
+            "name / index / negative index / missing x fill. Every optional argument of every entry point at its "
+            "falsy legal value next to None / omitted (start_time / end_time 0.0, precision 0, tier_name '', "
+            "point_tier False, fill_token '', tier_id 0 / '', empty utt2wc / wc2utt / token2id, unk 0 / '', token '', "
+            "id 0, time 0.0, frame 0, processes 0), omitted options really left out of the call; TextGrid segments "
+            "between 1 us and 1 ms (dyadic) at precisions 3..9 with point_tier unset. non-trivial: >= 1 alternate, >= 2 utterances, "
             ">= 2 timed tokens, >= 2 records or >= 2 tiers; distinct by the case")
     assumptions = [
         "Python text I/O, str.split/strip, float repr/parse (shortest round-trip) and '%.{p}f' formatting are "
@@ -1634,7 +1638,18 @@ class C11(PropertyCheck):
 
     def pred_textgrid(self, case, impl, model):
         t = case["t"]
-        if not t or isinstance(impl.get("lines"), dict) or case.get("malformed"):
+        if not t or case.get("malformed"):
+            return []
+        # a recording cannot start after / end before one of its entries: such a start_time / end_time is refused
+        # (0.0 included - it is a time, not "unset")
+        lo, hi = min(F(x[1]) for x in t), max(F(x[2]) for x in t)
+        if (case["start_time"] is not None and F(case["start_time"]) > lo) or \
+                (case["end_time"] is not None and F(case["end_time"]) < hi):
+            if impl.get("write_file") != "ValueError":
+                return [(f"write_textgrid(start_time={case['start_time']}, end_time={case['end_time']}) with entries from "
+                         f"{lo} to {hi}: expected ValueError, got {impl.get('write_file')}", "C11.textgrid.bounds_check")]
+            return []
+        if isinstance(impl.get("lines"), dict):
             return []
         fails = []
         for kind, same in (impl.get("other_sequences_same") or {}).items():
@@ -1673,9 +1688,17 @@ class C11(PropertyCheck):
             return fails + [(f"TextGrid written but read_textgrid raised {r['error']}", "C11.textgrid.read_error")]
         p = case["precision"]
         point = impl["lines"][6] == '"TextTier"'
-        want_point = case["point_tier"] if case["point_tier"] is not None else None
+        # the tier type: the one asked for; unset: "a point tier if all segments are length 0 (within precision
+        # `precision`); an interval tier otherwise" - the Lean spec (`inferPointAt precision`) is the oracle
+        want_point = case["point_tier"]
+        if want_point is None and model and isinstance(model.get("spec"), dict):
+            want_point = model["spec"]["infer_point"]
+            if model["spec"]["point_expected"] != want_point:
+                raise AssertionError("driver: point_expected != infer_point with point_tier unset")
         if want_point is not None and point != want_point:
-            fails.append((f"asked for point_tier={want_point}, file holds {impl['lines'][6]}", "C11.textgrid.tier_type"))
+            fails.append((f"point_tier={case['point_tier']}, segments {[(str(a), str(b)) for a, b in zip(starts, ends)]}"
+                          f" at precision {p}: expected {'a point' if want_point else 'an interval'} tier, file holds "
+                          f"{impl['lines'][6]}", "C11.textgrid.tier_type"))
         written = [(x[0], s, e) for x, s, e in zip(t, starts, ends)]
         fails.extend(self.tier_clauses(written, r, impl["read"], case["fill"], p, point,
                                        (min(starts), max(ends)), "C11.textgrid"))
@@ -1831,11 +1854,16 @@ class C11(PropertyCheck):
             table = {k: v for k, v in t2i}
             unk = case.get("unk")
             unk_id = table.get(unk, unk) if unk is not None else None
-            for x, row in zip(t, impl["rows"]):
+            oracle = ((model or {}).get("spec") or {}).get("ids")
+            for j, (x, row) in enumerate(zip(t, impl["rows"])):
                 tok = x[0] if isinstance(x, list) else x
+                want = tok if unk is None else unk_id
+                if tok in table:
+                    want = table[tok]
+                if oracle is not None and oracle[j] != (want if isinstance(want, int) else None):
+                    raise AssertionError(f"harness id rule {want!r} != Lean specId {oracle[j]!r} for {tok!r}")
                 if tok in table:
                     continue
-                want = tok if unk is None else unk_id
                 if isinstance(want, int) and row[0] != want:
                     fails.append((f"frames: token {tok!r} is not in token2id={table!r}, unk={unk!r}: expected id {want}, "
                                   f"got {row[0]}", "C11.frames.unk"))
@@ -2018,6 +2046,9 @@ class C11(PropertyCheck):
             for j in range(len(t)):
                 if len(t) > 1:
                     yield dict(case, t=t[:j] + t[j + 1:])
+            for j, x in enumerate(t):        # the same durations from time 0 on (keeps sub-millisecond segments)
+                if F(x[1]) > 0 and len(t) == 1:
+                    yield dict(case, t=[[x[0], "0", frac_str(F(x[2]) - F(x[1]))]])
             for key, dflt in (("fill", None), ("start_time", None), ("end_time", None), ("tier_id", 0),
                               ("tier_name", "transcript")):
                 if case[key] != dflt:
